@@ -305,6 +305,14 @@ def _tables(ck, prog):
           expected="20 keys, every value one of the 17 names", found={k: v for k, v in pal.items() if v not in COLOURS} or sorted(pal), slot="default-palette")
     g = prog.fn(SEQ, "Sequence.__init__")
     inits = [n for n in ast.walk(g.node) if isinstance(n, ast.Call) and getattr(n.func, "attr", "") == "set_HTMLColorResiduePalette"]
+    # a constructor that binds the module-level default itself (no copy) makes every object share one dict with the module - with a setter that
+    # edits in place one object's palette change then shows in all others
+    direct = [n for n in ast.walk(g.node) if isinstance(n, ast.Assign) and any(is_self_attr(t, "aminoAcidColorMap") for t in n.targets)]
+    for n in direct:
+        gl = prog.resolve_global(g.mod, n.value) if isinstance(n.value, (ast.Name, ast.Attribute)) else None
+        if gl and gl[1] in gl[0].globals and isinstance(gl[0].globals[gl[1]], (ast.Dict, ast.Call)):
+            ck.ob("ALIAS", SEQ_PATH + ":Sequence.__init__", False, expected="each object owns its palette (a copy of the default, made by the validating setter)",
+                  found=unparse(n), slot="shares-module-default", where=g.loc(n), note="the module-level default palette becomes shared mutable state of all objects")
     ck.shape(len(inits) == 1 and inits[0].args, "Sequence.__init__: the palette is initialised through the validating setter", g.loc())
     ck.ob("TAB-colours", SEQ_PATH + ":Sequence.__init__", unparse(inits[0].args[0]).endswith("DEFAULT_COLOR_PALETTE"),
           expected="a new object starts with the default palette (through the validating setter)", found=[unparse(i) for i in inits], slot="initial-palette",
